@@ -364,7 +364,7 @@ def events(max_len: int):
         st.just(["send"]), st.just(["send"]), st.just(["send"]), st.just(["send_silent"]), st.just(["send_error"]), st.just(["send_close"]),
         st.just(["refuse"]), st.just(["auth_good"]), st.just(["auth_bad_token"]), st.just(["auth_bad_key"]), st.just(["auth_silent"]), st.just(["auth_refused"]), st.just(["send_garbled_hs"]),
         st.integers(0, 100).map(lambda x: ["sleep_12h", x]), st.integers(0, 100).map(lambda x: ["sleep_life", x]),
-        st.sampled_from([0.01, 0.5, 3.0, 29.0, 31.0, 599.0, 3600.0, 25200.0, 43000.0]).map(lambda x: ["sleep", x]), st.just(["reconfigure"]),
+        st.sampled_from([0.01, 0.5, 3.0, 20.0, 29.0, 31.0, 400.0, 599.0, 3600.0, 25200.0, 43000.0, 43900.0]).map(lambda x: ["sleep", x]), st.just(["reconfigure"]),
         st.tuples(st.sampled_from(phases), st.sampled_from([0.0, 0.01, -0.01]), st.sampled_from(["send", "send", "auth"])).map(lambda t: ["cancel", round(t[0] + t[1], 3), t[2]]),
     )
     body = st.lists(ev, min_size=1, max_size=max_len)
@@ -393,6 +393,13 @@ def run(ctx) -> None:
         # traffic inside the 12 h window does not extend it: 7 h + 7 h after the handshake the next exchange re-authenticates
         scripts.append({"config": {"lifetime": lifetime}, "events": [["auth_good"], ["send"], ["sleep", 25200.0], ["send"], ["sleep", 25200.0], ["send"], ["send"]]})
         scripts.append({"config": {"lifetime": lifetime}, "events": [["auth_good"], ["sleep", 43000.0], ["send"], ["sleep", 300.0], ["send"], ["sleep", 43000.0], ["send"]]})
+        # an explicit re-authentication on the live connection does not restart that connection's lifetime ...
+        L_ = lifetime or 30
+        scripts.append({"config": {"lifetime": lifetime}, "events": [["auth_good"], ["send"], ["sleep", 0.7 * L_], ["auth_good"], ["sleep", 0.7 * L_], ["send"], ["send"]]})
+        scripts.append({"config": {"lifetime": lifetime}, "events": [["auth_good"], ["sleep", 0.6 * L_], ["auth_bad_key"], ["auth_good"], ["sleep", 0.6 * L_], ["send"]]})
+        # ... and the 12 h limit is a hard one: 12 h + 1 min, + 20 min, + 35 min after the handshake the next exchange re-authenticates
+        for extra in (60.0, 1200.0, 2100.0):
+            scripts.append({"config": {"lifetime": lifetime}, "events": [["auth_good"], ["send"], ["sleep", 43200.0 + extra - 20.0], ["send"], ["send"]]})
         # the first exchange after an expiry is an explicit authenticate
         scripts.append({"config": {"lifetime": lifetime}, "events": [["auth_good"], ["send"], ["sleep_life", 0], ["auth_good"], ["send"]]})
         scripts.append({"config": {"lifetime": lifetime}, "events": [["auth_good"], ["send"], ["sleep_12h", 0], ["auth_good"], ["send"]]})
